@@ -585,6 +585,11 @@ func (c *Cluster) Delete(gk schema.GroupKind, ns, name string, o DeleteOpts) (Ob
 		if !Deleting(cur) {
 			m["deletionTimestamp"] = c.Now().UTC().Format(time.RFC3339)
 			m["deletionGracePeriodSeconds"] = int64(0)
+			// like the API server (rest.BeforeDelete / registry store markAsDeleting): marking an
+			// object as being deleted bumps its generation, so generation-filtered watches see it
+			if g := Int(cur, "metadata", "generation"); g > 0 {
+				m["generation"] = g + 1
+			}
 		}
 		m["resourceVersion"] = c.nextRV()
 		c.commit("MODIFIED", key, Copy(cur), next)
